@@ -288,6 +288,11 @@ func writeGroupIni(cmd *Command, group *Group, namespace string, writer io.Write
 
 			if kind == reflect.Ptr {
 				kind = val.Type().Elem().Kind()
+
+				// There is no value to write for a nil pointer
+				if val.IsNil() {
+					commentOption = true
+				}
 			}
 
 			writeOption(writer, oname, kind, "", v, commentOption, option.iniQuote)
